@@ -160,9 +160,12 @@ fn gen_case_inner(rng: &mut Rng) -> Value {
         "solve" | "solve_left" | "inv" | "solve_vec" => {
             // one run in sixteen is large (batched / chunked variants of the column loop only differ there)
             let big = rng.chance(1, 16) && matches!(ring, "Z" | "ZB" | "F2" | "F3" | "F7");
-            let n = if big { 65 + rng.below(40) as usize } else { match rng.below(8) { 0 => 0, 1 => 1, _ => 2 + rng.below(nmax - 1) as usize } };
+            // one run in twenty-four has hundreds of right-hand sides for a small system (column loops
+            // split into per-worker blocks only beyond some width)
+            let many_rhs = !big && matches!(kind, "solve" | "solve_left") && rng.chance(1, 24);
+            let n = if big { 65 + rng.below(40) as usize } else if many_rhs { 2 + rng.below(7) as usize } else { match rng.below(8) { 0 => 0, 1 => 1, _ => 2 + rng.below(nmax - 1) as usize } };
             let (a, _) = gen_triangular(rng, ring, n, upper);
-            let k = match kind { "solve_vec" => 1, _ => match rng.below(12) { 0 | 1 => 0, 2 | 3 => 1, 4 => 40 + rng.below(80) as usize, _ => 2 + rng.below(29) as usize } };
+            let k = match kind { "solve_vec" => 1, _ if many_rhs => 256 + rng.below(170) as usize, _ => match rng.below(12) { 0 | 1 => 0, 2 | 3 => 1, 4 => 40 + rng.below(80) as usize, _ => 2 + rng.below(29) as usize } };
             let y = match kind {
                 "solve_left" => gen_rect(rng, ring, k, n, false),
                 "inv" => json!(null),
